@@ -186,8 +186,8 @@ def conc(node, st, fifo, subst=None):
 
 
 class RingPath:
-    def __init__(self, fn, ps, fifo, preds):
-        self.fn, self.ps, self.fifo, self.preds = fn, ps, fifo, preds
+    def __init__(self, fn, ps, fifo, preds, items):
+        self.fn, self.ps, self.fifo, self.preds, self.items = fn, ps, fifo, preds, items
         self.guards = []      # (kind, field, value) e.g. ('ne', 'count', 'size'), ('eq','count',0)
         self.raw_guards = []  # (expr node, polarity) for concrete evaluation
         self.ops = []         # ('assign', field, rhs node, op) | ('slot', 'read'|'write', index node)
@@ -224,28 +224,76 @@ class RingPath:
         self.unknown_guards.append(n.src)
 
     def _collect(self):
-        fn, fifo = self.fn, self.fifo
-        for ev in self.ps.events:
-            if ev[0] == "branch":
-                atom, pol = ev[1], ev[2]
+        for it in self.items:
+            if it[0] == "branch":
+                _, atom, pol, fifo = it
                 if isinstance(pol, tuple):
                     self.unknown_guards.append(atom.src)
                     continue
-                self._guard_atom(atom, pol)
-            elif ev[0] == "store":
-                n = ev[1]
+                if fifo != self.fifo and self.ops:
+                    # a decision of an inlined mutator taken after the state already changed: the model evaluates guards
+                    # on the entry state only
+                    before = len(self.guards)
+                    self._cmp(atom, pol, fifo)
+                    if len(self.guards) != before:
+                        self.unknown_guards.append("%s (inside a called mutator, after a change)" % atom.src)
+                    continue
+                if fifo != self.fifo:
+                    self._cmp(atom, pol, fifo)
+                else:
+                    self._guard_atom(atom, pol)
+            elif it[0] == "store":
+                _, n, fifo = it
                 t = C.store_target(n)
                 f = field_of(t, fifo)
                 if f:
-                    self.ops.append(("assign", f, n))
+                    self.ops.append(("assign", f, n, fifo))
                 # slot write: fifo->data[idx] = ...
                 if t.k == "ArraySubscriptExpr" and (t.child(0).strip_all_casts().get("path") or "") == "%s->data" % fifo:
-                    self.ops.append(("slot", "write", t.child(1)))
+                    self.ops.append(("slot", "write", t.child(1), fifo))
                 # slot read on the rhs
                 if n.k == "BinaryOperator" and n.get("op") == "=":
                     for s in n.child(1).walk():
                         if s.k == "ArraySubscriptExpr" and (s.child(0).strip_all_casts().get("path") or "") == "%s->data" % fifo:
-                            self.ops.append(("slot", "read", s.child(1)))
+                            self.ops.append(("slot", "read", s.child(1), fifo))
+
+
+def _touches_ring(g, gfifo):
+    return any(field_of(t, gfifo) or (t.k == "ArraySubscriptExpr" and (t.child(0).strip_all_casts().get("path") or "") == "%s->data" % gfifo)
+               for _, t in C.stores(g))
+
+
+def expand(fn, ps, fifo, depth=0, stack=()):
+    """the path's ring-relevant items in order; a call that hands this ring to another library function which stores to the
+    ring fields (fifo_init written as `fifo_clear(fifo); ...`) is replaced by that function's paths (one variant each)"""
+    variants = [[]]
+    for ev in ps.events:
+        if ev[0] == "branch":
+            for v in variants:
+                v.append(("branch", ev[1], ev[2], fifo))
+        elif ev[0] == "store":
+            for v in variants:
+                v.append(("store", ev[1], fifo))
+        elif ev[0] == "call":
+            call = ev[1]
+            g = PROG[0].fn(call.get("callee") or "") if PROG[0] is not None else None
+            if g is None or g.name in stack or g.name == fn.name:
+                continue
+            gfifo = None
+            for prm, a in zip(g.params, C.call_args(call)):
+                if a.strip_all_casts().get("path") == fifo:
+                    gfifo = prm["name"]
+            if gfifo is None or not _touches_ring(g, gfifo):
+                continue
+            if depth >= 2 or C.loops(g):
+                for v in variants:
+                    v.append(("branch", call, ("opaque",), fifo))
+                continue
+            subs = []
+            for gps in P.summarize(g):
+                subs.extend(expand(g, gps, gfifo, depth + 1, stack + (fn.name,)))
+            variants = [v + sv for v in variants for sv in subs]
+    return variants
 
 
 def analyse(fn, preds):
@@ -253,7 +301,8 @@ def analyse(fn, preds):
     fifo = fn.params[0]["name"]
     out = []
     for ps in P.summarize(fn):
-        out.append(RingPath(fn, ps, fifo, preds))
+        for items in expand(fn, ps, fifo):
+            out.append(RingPath(fn, ps, fifo, preds, items))
     return out
 
 
@@ -281,23 +330,23 @@ def prove(rp, establishes=False):
     try:
         for op in rp.ops:
             if op[0] == "assign":
-                _, f, n = op
+                _, f, n, ofifo = op
                 o = n.get("op")
                 if establishes and f == "size":
                     continue  # capacity is a parameter of the initialiser
                 if n.k == "UnaryOperator":
                     new = env[f].add(Lin({}, 1), 1 if o == "++" else -1)
                 elif o == "=":
-                    new = sym(n.child(1), env, rp.fifo)
+                    new = sym(n.child(1), env, ofifo)
                 elif o in ("+=", "-="):
-                    new = env[f].add(sym(n.child(1), env, rp.fifo), 1 if o == "+=" else -1)
+                    new = env[f].add(sym(n.child(1), env, ofifo), 1 if o == "+=" else -1)
                 else:
                     raise Unsupported("operator %s" % o)
                 if f == "size" and not establishes:
                     return False, "capacity is modified by a mutator"
                 env[f] = new
             else:
-                slots.append((op[1], sym(op[2], env, rp.fifo)))
+                slots.append((op[1], sym(op[2], env, op[3])))
     except Unsupported as e:
         return None, "cannot model %s" % e
     if establishes:
@@ -358,20 +407,20 @@ def refute(rp, role, max_size=6):
         try:
             for op in rp.ops:
                 if op[0] == "assign":
-                    _, f, n = op
+                    _, f, n, ofifo = op
                     o = n.get("op")
                     if n.k == "UnaryOperator":
                         st[f] = st[f] + (1 if o == "++" else -1)
                     elif o == "=":
-                        st[f] = conc(n.child(1), st, rp.fifo)
+                        st[f] = conc(n.child(1), st, ofifo)
                     elif o == "+=":
-                        st[f] = st[f] + conc(n.child(1), st, rp.fifo)
+                        st[f] = st[f] + conc(n.child(1), st, ofifo)
                     elif o == "-=":
-                        st[f] = st[f] - conc(n.child(1), st, rp.fifo)
+                        st[f] = st[f] - conc(n.child(1), st, ofifo)
                     else:
                         raise Unsupported(o)
                 else:
-                    touched.append((op[1], conc(op[2], st, rp.fifo)))
+                    touched.append((op[1], conc(op[2], st, op[3])))
         except Unsupported:
             return None
         except ZeroDivisionError:
